@@ -26,6 +26,7 @@ RULES = {
     "C11-S2": "every register class that is an input of a summary reaches a store of the dependent register on every path of its arm",
     "C11-S3": "register/group tables wire ESR/OPER/QUES/STB groups and parent bits as IEEE 488.2 / SCPI prescribe, with fully initialised rows",
     "C11-S4": "recomputed summary == parent|bit iff (event & enable) != 0 (truth table); MSS == ((STB&~0x40)&(SRE&~0x40)) != 0",
+    "C11-S7": "bit 2 follows the queue: every queue operation evaluated from every consistent state of a two-entry queue leaves bit 2 set iff the queue is not empty",
     "C11-S5": "error queue insertion is followed by set(STB.QMA); every removal is followed by the conditional clear before returning",
     "C11-S6": "no implicit integral conversion to scpi_bool_t of a value that is not 0/1 where scpi_bool_t is not _Bool",
 }
@@ -524,6 +525,74 @@ def rule_s6(ck, prog):
     ck.floor("C11-S6", 5)
 
 
+def rule_s7(ck, prog, tier):
+    """Bit 2 follows the queue, as an inductive check by evaluation (sa/interp.py): from every consistent state of a
+    two-entry queue (0, 1 or 2 errors queued, bit 2 set iff not empty) each queue operation - push of every error code,
+    pop, clear, re-initialisation - is evaluated on the real register and queue objects, and the state it leaves must be
+    consistent again.  Independent of how the set / conditional-clear helpers are split or named."""
+    from sa import interp as I
+    ec = prog.enumconst
+    stb = ec.get("SCPI_REG_STB")
+    push, pop, clr, init = (prog.fn(n_) for n_ in ("SCPI_ErrorPushEx", "SCPI_ErrorPop", "SCPI_ErrorClear", "SCPI_ErrorInit"))
+    if stb is None or push is None or pop is None or clr is None or "_scpi_t" not in prog.records:
+        return
+    QMA = 0x04
+    st = K.site(push, "error-available-follows-queue", 0)
+
+    def mkctx(count):
+        ctx = I.zero_object(prog, {"tk": "record", "ct": "struct _scpi_t"})
+        q = ctx["error_queue"]
+        q["size"], q["count"], q["wr"], q["rd"] = 2, count, count % 2, 0
+        slots = [I.zero_object(prog, {"tk": "record", "ct": "struct _scpi_error_t"}) for _ in range(2)]
+        for i_, e_ in enumerate(slots):
+            e_["error_code"] = -100 - i_
+        q["data"] = I.Ptr(slots, 0)
+        ctx["registers"][stb] = QMA if count else 0
+        return ctx
+
+    def consistent(ctx):
+        return bool(ctx["registers"][stb] & QMA) == (ctx["error_queue"]["count"] != 0)
+    lo, hi = -32768, 32767
+    codes = sorted(K.breakpoints(prog, push, lo, hi) | {0, 1, -1})
+    bad = None
+    nrun = 0
+    try:
+        for count in (0, 1, 2):
+            for code in codes:
+                ctx = mkctx(count)
+                I.Machine(prog, max_steps=10 ** 8).run(push, [I.Ptr([ctx], 0), code, 0, 0])
+                nrun += 1
+                if not consistent(ctx):
+                    bad = bad or "after SCPI_ErrorPushEx(ctx, %d) onto %d queued errors: %d queued, status byte 0x%02x" % (
+                        code, count, ctx["error_queue"]["count"], ctx["registers"][stb])
+            for fn_, label, mk in ((pop, "SCPI_ErrorPop", lambda c_: [I.Ptr([c_], 0), I.Ptr([I.zero_object(prog, {"tk": "record", "ct": "struct _scpi_error_t"})], 0)]),
+                                   (clr, "SCPI_ErrorClear", lambda c_: [I.Ptr([c_], 0)])):
+                ctx = mkctx(count)
+                I.Machine(prog, max_steps=10 ** 8).run(fn_, mk(ctx))
+                nrun += 1
+                if not consistent(ctx):
+                    bad = bad or "after %s with %d queued errors: %d queued, status byte 0x%02x" % (
+                        label, count, ctx["error_queue"]["count"], ctx["registers"][stb])
+            if init is not None:
+                ctx = mkctx(count)
+                fresh = [I.zero_object(prog, {"tk": "record", "ct": "struct _scpi_error_t"}) for _ in range(2)]
+                I.Machine(prog, max_steps=10 ** 8).run(init, [I.Ptr([ctx], 0), I.Ptr(fresh, 0), 2])
+                nrun += 1
+                if not consistent(ctx):
+                    bad = bad or "after SCPI_ErrorInit on a context with %d queued errors: %d queued, status byte 0x%02x" % (
+                        count, ctx["error_queue"]["count"], ctx["registers"][stb])
+    except I.Stuck as e:
+        ck.assume("C11-S7: the queue operations could not be evaluated (%s); bit 2 is decided by the structural pairing rule S5 only" % e)
+        return False
+    ck.analysed(push, pop, clr)
+    if bad:
+        ck.violated("C11-S7", st, K.loc(push), "status-byte bit 2 does not follow the error queue: %s" % bad)
+    else:
+        ck.holds("C11-S7", st, K.loc(push), "%d evaluations from the three consistent states of a two-entry queue (push of %d codes, pop, "
+                 "clear, init): bit 2 set iff the queue is not empty afterwards" % (nrun, len(codes)))
+    return True
+
+
 def run(ck, fb, tier):
     for cfg in fb.configs:
         ck.config = cfg
@@ -541,7 +610,13 @@ def run(ck, fb, tier):
                 else:
                     rule_s2_s4(ck, prog, model)
         if cfg in ("A", "B") or tier == "thorough":
-            rule_s5(ck, prog, S)
+            evaluated = rule_s7(ck, prog, tier)
+            # the structural pairing rule names the two helpers; when they are gone (merged, inlined) and the evaluation
+            # above decided the same clause, their absence is not a lost anchor
+            if evaluated and not all(prog.fn(n_) is not None for n_ in ("SCPI_ErrorEmit", "SCPI_ErrorEmitEmpty")):
+                pass
+            else:
+                rule_s5(ck, prog, S)
         if cfg == "E" or tier == "thorough":
             rule_s6(ck, prog)
     ck.trust("spec/status_model.json transcribes IEEE 488.2 ch.11 / SCPI STATus wiring correctly")
